@@ -12,6 +12,7 @@ recorded case (v = "ok" or the name of the disagreement).
 """
 from __future__ import annotations
 import json, multiprocessing as mp, os, shutil
+from .par import SafePool
 from concurrent.futures import ThreadPoolExecutor
 from . import tlc
 from .common import Report
@@ -57,7 +58,7 @@ def parallel(fn, items: list, procs: int = NPROC) -> list:
         return _chunk((fn, items))
     n = procs * 4
     chunks = [items[i::n] for i in range(n)]
-    with mp.get_context('fork').Pool(procs) as pool:
+    with SafePool(procs) as pool:
         outs = pool.map(_chunk, [(fn, c) for c in chunks])
     res = [None] * len(items)
     for ci, out in enumerate(outs):
